@@ -1720,8 +1720,8 @@ if __name__ == "__main__":
 
         restartOptions = None
         if options.restart is not None:
-            # VV: Before restarting the experiment, clear the error description
-            compExperiment.statusFile.removeErrorDescription()
+            # VV: Before restarting the experiment, clear the error description and the verdict of the previous run
+            compExperiment.statusFile.resetForRestart()
 
             restartOptions = {'startStage': options.restart,
                               'restageData': options.stageData,
